@@ -248,7 +248,7 @@ func (p *ECPoint) UnmarshalJSON(payload []byte) error {
 		Curve  string
 		Coords [2]*big.Int
 	}{}
-	if err := json.Unmarshal(payload, &aux); err != nil {
+	if err := json.Unmarshal(payload, aux); err != nil {
 		return err
 	}
 	p.coords = [2]*big.Int{aux.Coords[0], aux.Coords[1]}
